@@ -16,7 +16,7 @@ from pvmon.oracle import judge, tzdb
 
 PLAN = {
     "quick": {"configs": ["ext1", "ext0"], "nshards": 12, "nshards_ext0": 4, "timeout": 900, "calendar_first": [0, 6, 0, 5]},
-    "thorough": {"configs": ["ext1", "ext0"], "nshards": 16, "timeout": 3400, "suite": ["ext1"], "calendar_first": [0, 6, 0, 5]},
+    "thorough": {"configs": ["ext1", "ext0"], "nshards": 16, "timeout": 6000, "suite": ["ext1"], "calendar_first": [0, 6, 0, 5]},
 }
 DECIDING = ["next", "previous", "first_of", "last_of", "nth_of"]
 FLOORS = {"quick": {"next": 20000, "previous": 20000, "first_of": 20000, "last_of": 20000, "nth_of": 50000},
@@ -410,6 +410,7 @@ def run(M, c):
                         _quiet(x.next, WD(wd))
                         _quiet(x.previous, WD(wd))
                 M.cls("history", fw, y, c["order"], c["kind"])
+                M.progress()
         M.sample(c)
         return
     # transitions at midnight: start `back` days before the affected date and navigate onto it
